@@ -103,6 +103,45 @@ macro_rules! axis_consts {
     };
 }
 
+/// further read paths of the f32 3- and 4-vectors: the conversions that hand every lane on to another
+/// vector type (extend / truncate / tuple From with a scalar on either side / Vec3 <-> Vec3A / from_vec4)
+fn extra_reads<T: 'static + Copy, S: 'static + Copy>(v: &T) -> Vec<(&'static str, Vec<S>)> {
+    use std::any::TypeId;
+    let cast = |l: Vec<f32>| -> Vec<S> {
+        assert_eq!(TypeId::of::<S>(), TypeId::of::<f32>());
+        l.into_iter().map(|x| unsafe { std::mem::transmute_copy::<f32, S>(&x) }).collect()
+    };
+    let w = 777.25f32;
+    if TypeId::of::<T>() == TypeId::of::<Vec3A>() {
+        let v: Vec3A = unsafe { std::mem::transmute_copy::<T, Vec3A>(v) };
+        return vec![
+            ("extend(w).xyz", cast(v.extend(w).to_array()[..3].to_vec())),
+            ("Vec4::from((v, w)).xyz", cast(Vec4::from((v, w)).to_array()[..3].to_vec())),
+            ("Vec4::from((w, v)).yzw", cast(Vec4::from((w, v)).to_array()[1..].to_vec())),
+            ("Vec3::from(v)", cast(Vec3::from(v).to_array().to_vec())),
+            ("Vec3A::from(Vec3::from(v))", cast(Vec3A::from(Vec3::from(v)).to_array().to_vec())),
+            ("truncate + z", cast(vec![v.truncate().x, v.truncate().y, v.z])),
+        ];
+    }
+    if TypeId::of::<T>() == TypeId::of::<Vec3>() {
+        let v: Vec3 = unsafe { std::mem::transmute_copy::<T, Vec3>(v) };
+        return vec![
+            ("extend(w).xyz", cast(v.extend(w).to_array()[..3].to_vec())),
+            ("Vec4::from((v, w)).xyz", cast(Vec4::from((v, w)).to_array()[..3].to_vec())),
+            ("Vec4::from((w, v)).yzw", cast(Vec4::from((w, v)).to_array()[1..].to_vec())),
+            ("Vec3A::from(v)", cast(Vec3A::from(v).to_array().to_vec())),
+        ];
+    }
+    if TypeId::of::<T>() == TypeId::of::<Vec4>() {
+        let v: Vec4 = unsafe { std::mem::transmute_copy::<T, Vec4>(v) };
+        return vec![
+            ("truncate + w", cast(vec![v.truncate().x, v.truncate().y, v.truncate().z, v.w])),
+            ("Vec3A::from_vec4 + w", cast(vec![Vec3A::from_vec4(v).x, Vec3A::from_vec4(v).y, Vec3A::from_vec4(v).z, v.w])),
+        ];
+    }
+    vec![]
+}
+
 macro_rules! paths_vec {
     ($T:ident, $free:ident, $S:ident, $N:expr, $kind:ident, [$($f:ident $i:tt $with:ident $AX:ident),*], $tup:ty, [$(($NC:ident, $ni:expr)),*]) => {
         impl Paths for $T {
@@ -166,7 +205,7 @@ macro_rules! paths_vec {
                     ("Into<tuple>", vec![$(t.$i),*]),
                     ("AsRef", ar.to_vec()),
                     ("copy.to_array", { let c = *self; c.to_array().to_vec() }),
-                ]
+                ].into_iter().chain(extra_reads::<$T, $S>(self)).collect()
             }
             fn strings(&self) -> (String, String, String) { (format!("{:?}", self), format!("{}", self), format!("{:.3}", self)) }
             fn model_strings(l: &[$S]) -> (String, String, String) {
